@@ -255,6 +255,67 @@ def h_asian_column(ctx, n, offset):
     ctx.prove("C17.average_is_the_time_weighted_mean_of_the_observations", EQ_RATIONAL(v, want), info=info, replay=rp)
 
 
+class _PairPath:
+    """what MLMCPath reads of a coupled stochastic path: times and a (2, n) array [fine, coarse]"""
+
+    def __init__(self, times, fine, coarse):
+        self._t = times
+        self._v = np.array([list(fine), list(coarse)], dtype=object if any(V.is_sym(x) for x in list(fine) + list(coarse)) else float)
+
+    def times(self):
+        return self._t
+
+    def value(self):
+        return self._v
+
+    def value_jump(self):
+        return self._v
+
+
+def replay_mlmc_barrier(sc):
+    """real MLMCPath.process with a knock-in call: the fine payoff must be the product's value on the fine path alone"""
+    import rpylib.montecarlo.path as MPATH
+
+    fine, coarse = np.array(sc["fine"]), np.array(sc["coarse"])
+    t = np.arange(len(fine), dtype=float)
+    k, b = sc["k"], sc["b"]
+    bt = getattr(BT, sc["bt"])
+    prod = PROD.Product(payoff_underlying=UND.Spot(), payoff=PAY.Barrier(strike=k, payoff_type=PT_.CALL, barrier_type=bt, barrier=b), maturity=1.0)
+    pm = MPATH.MLMCPath(deterministic_path=lambda times: 0.0, activate_spot_underlying=False)
+    pm.set_to_path(_PairPath(t, fine, coarse))
+    pm.process(prod, PROD.NoControlVariates())
+    got = [float(np.ravel(x)[0]) for x in pm.payoff]
+    want = []
+    for p in (fine, coarse):
+        fresh = PROD.Product(payoff_underlying=UND.Spot(), payoff=PAY.Barrier(strike=k, payoff_type=PT_.CALL, barrier_type=bt, barrier=b), maturity=1.0)
+        want.append(float(np.ravel(fresh(fresh.underlying_value(t, p, p)))[0]))
+    return got != want, f"Barrier({sc['bt']}, K={k}, B={b}) in MLMCPath.process: fine path {fine.tolist()}, coarse path {coarse.tolist()}: payoffs (fine, coarse) = {got}, each path priced alone {want}"
+
+
+def h_mlmc_barrier(ctx, n, bt):
+    """the coupled pair of a multilevel run: MLMCPath.process must give each component the value the product has on that path alone
+    (the barrier flag of one path must not leak into the other's payoff)"""
+    import rpylib.montecarlo.path as MPATH
+
+    fine, coarse = sym_path(ctx, n, "f"), sym_path(ctx, n, "c")
+    times = np.arange(n, dtype=float)
+    k, b = ctx.real("k"), ctx.real("b")
+    btype = getattr(BT, bt)
+    mk = lambda: PROD.Product(payoff_underlying=UND.Spot(), payoff=PAY.Barrier(strike=k, payoff_type=PT_.CALL, barrier_type=btype, barrier=b), maturity=1.0)
+    prod = mk()
+    pm = MPATH.MLMCPath(deterministic_path=lambda t: 0.0, activate_spot_underlying=False)
+    pm.set_to_path(_PairPath(times, fine, coarse))
+    pm.process(prod, PROD.NoControlVariates())
+    got_f, got_c = pm.payoff[0], pm.payoff[1]
+    pf, pc = mk(), mk()
+    want_f = pf(pf.underlying_value(times, fine, fine))
+    want_c = pc(pc.underlying_value(times, coarse, coarse))
+    rp = (replay_mlmc_barrier, lambda m: {"fine": _vals(m, fine), "coarse": _vals(m, coarse), "k": m.f(k), "b": m.f(b), "bt": bt})
+    info = {"n": n, "barrier": bt}
+    ctx.prove("C17.multilevel_pair_fine_payoff_depends_on_the_fine_path_only", EQ(np.ravel(got_f)[0], np.ravel(want_f)[0] if isinstance(want_f, np.ndarray) else want_f), info=info, replay=rp)
+    ctx.prove("C17.multilevel_pair_coarse_payoff_depends_on_the_coarse_path_only", EQ(np.ravel(got_c)[0], np.ravel(want_c)[0] if isinstance(want_c, np.ndarray) else want_c), info=info, replay=rp)
+
+
 def h_default_time(ctx, n):
     times = sym_times(ctx, n)
     jp = np.empty(n, dtype=object)
@@ -312,6 +373,7 @@ def harnesses(tier):
         hs.append(Harness(f"nth.{n}", h_nth_default, {"n": n}, max_paths=20000, batch=20))
     for bt in ("UP_AND_IN", "UP_AND_OUT", "DOWN_AND_IN", "DOWN_AND_OUT"):
         hs.append(Harness(f"barrier.history.{bt}", h_barrier_history, {"n": 2, "bt": bt}, max_paths=20000, batch=20))
+        hs.append(Harness(f"barrier.mlmc_pair.{bt}", h_mlmc_barrier, {"n": 2, "bt": bt}, max_paths=20000, batch=20))
     hs.append(Harness("representation", h_representation, {"n": 2}, max_paths=2000))
     hs.append(Harness("twin", h_twin, twin="must_fail"))
     return hs
